@@ -34,6 +34,7 @@ def run(ctx, sess):
     ctx.rule('C03.k', 'the backward scan for the last valid chunk examines every 8-byte aligned offset: traced with candidates that never match, the offsets handed to the header CRC cover every multiple of 8 between the first chunk and the end of the file (no offset falls between two windows)')
     ctx.rule('C03.m', 'repair appends at the end of the file: in jls_core_repair_fsr no path leads from a call that moves the file position (seek, chunk read) to a call that can append chunks (summary reductions, track close) without passing jls_raw_seek_end')
     ctx.rule('C03.o', 'repair counts every chunk once: the calls that add the chunk just visited to the rebuilt level above (jls_core_fsr_summaryN / jls_core_fsr_summary1) run only while the flag set at a descent is clear, and the flag is cleared after the first chunk of the lower level')
+    ctx.rule('C03.p', 'repair places every block by its own sample id: in the level-0 walk of the FSR rebuild a data chunk is added to the rebuilt level 1 only behind a compare of its header timestamp with the id expected after the previous chunk (blocks that were left out leave no chunk in the chain; a chunk that follows them cannot be placed and ends the signal)')
     ctx.rule('C03.n', 'repair copies a chunk into a typed buffer only after checking what it is: every memcpy of the bytes just read into a level / sample buffer is preceded by a compare of the chunk tag and by a compare of the length with the capacity of the destination')
     ctx.rule('C03.d', 'truncation is reachable only from the repair branch of jls_rd_open')
     ra(ctx, P)
@@ -48,6 +49,7 @@ def run(ctx, sess):
     repair_position_rule(ctx, P)
     repair_copy_rule(ctx, P)
     repair_descent_rule(ctx, P, 'C03.o')
+    repair_continuity_rule(ctx, P, 'C03.p')
     end_at_end_rule(ctx, P)
     from .c14 import head_table_rule, WRITER_ROOT_PREFIXES
     roots = sorted(f.name for f in P.all_functions() if f.api and f.name.startswith(WRITER_ROOT_PREFIXES))
@@ -617,3 +619,44 @@ def repair_descent_rule(ctx, P, rule):
     for f in sorted(flags):
         clears = [ev for ev in fn.stores() if strip_casts(ev.store_parts()[0]).get('name') == f and ev.store_parts()[1] is not None and const_of(strip_casts(ev.store_parts()[1])) == 0]
         ctx.ob(rule, len(clears) >= len(summ), fn.name, 'descent flag %s cleared after each guarded call' % f, fn.where(), '%d clearing stores for %d summarising calls' % (len(clears), len(summ)))
+
+
+
+def repair_continuity_rule(ctx, P, rule):
+    fn = P.fn('jls_core_repair_fsr')
+    s1 = list(fn.calls('jls_core_fsr_summary1'))
+    if not s1:
+        raise AnalysisBroken('jls_core_repair_fsr: no level-0 summarising call')
+    # compares  <chunk header>.timestamp  ==/!=  <local that is advanced by the block size>
+    guards = set()
+    for b in fn.blocks.values():
+        for c in ([strip_casts(b.cond)] if b.cond is not None else []):
+            for nd in walk(c):
+                if nd.get('op') != 'bin' or nd['o'] not in ('==', '!='):
+                    continue
+                l, r = strip_casts(nd['k'][0]), strip_casts(nd['k'][1])
+                for x, y in ((l, r), (r, l)):
+                    ts_side = any(m.get('op') == 'member' and m.get('field') == 'timestamp' for m in walk(x)) or \
+                        (x.get('op') == 'ref' and any(e_.k == 'decl' and e_.name == x.get('name') and e_.e is not None and
+                                                      any(m.get('op') == 'member' and m.get('field') == 'timestamp' for m in walk(e_.e)) for e_ in fn.events()))
+                    if not ts_side or y.get('op') != 'ref' or y.get('rk') != 'local':
+                        continue
+                    adv = [e_ for e_ in fn.stores() if strip_casts(e_.store_parts()[0]).get('name') == y['name'] and e_.store_parts()[1] is not None and
+                           any(m.get('op') == 'member' and m.get('field') in ('samples_per_data', 'entry_count') for m in walk(e_.store_parts()[1]))]
+                    if adv:
+                        guards.add(b.id)
+    # `have_previous && (timestamp != expected)`: the flag that says there is a previous chunk guards the compare
+    for b in list(fn.blocks.values()):
+        c0 = strip_casts(b.cond) if b.cond is not None else None
+        if c0 is not None and c0.get('op') == 'ref' and c0.get('rk') == 'local' and any(s_.id in guards and lab == 'T' for s_, lab in b.succs):
+            guards.add(b.id)
+    for c in s1:
+        reads = [r_ for r_ in fn.calls('jls_core_rd_chunk') if find_path(fn, r_, lambda e2, facts: 'target' if e2 is c else None, refine=False) is not None]
+        w = None
+        for r_ in reads:
+            w = w or find_path(fn, r_, lambda e2, facts: 'stop' if (e2.k == 'call' and e2.callee == 'jls_core_rd_chunk') else ('target' if e2 is c else None),
+                               refine=False, edge_ok=lambda b_, s_, lab: b_.id not in guards)
+        ctx.ob(rule, bool(guards) and w is None, fn.name, 'data chunks are placed by their sample id', c.where(),
+               'the timestamp of the chunk just read is compared with the id expected after the previous chunk' if (guards and w is None) else
+               'every chunk of the data chain is appended to the rebuilt level 1 as if it followed the previous one: after blocks that were left out (constant data, or on request) the index has fewer entries than blocks, the reported length exceeds what can be read and the summaries sit at the wrong sample ranges',
+               w.render() if w else None)
